@@ -4,6 +4,7 @@ import (
 	"context"
 	"encoding/json"
 	"fmt"
+	"math"
 	"strconv"
 	"strings"
 	"unicode/utf8"
@@ -44,8 +45,14 @@ func (self ValueString) Fields() (map[string]*Value, *VmInterrupt) {
 			return NewValueString(out), nil
 		}),
 		"repeat": NewValueBuiltinFunction(func(executor Executor, cancelCtx *context.Context, span errors.Span, args ...Value) (*Value, *VmInterrupt) {
-			count := int(args[0].(ValueInt).Inner)
-			return NewValueString(strings.Repeat(self.Inner, count)), nil
+			count := args[0].(ValueInt).Inner
+			if count < 0 {
+				return nil, NewVMThrowInterrupt(span, "negative repeat count")
+			}
+			if len(self.Inner) > 0 && count > math.MaxInt/int64(len(self.Inner)) {
+				return nil, NewVMThrowInterrupt(span, "repeat output length overflow")
+			}
+			return NewValueString(strings.Repeat(self.Inner, int(count))), nil
 		}),
 		"split": NewValueBuiltinFunction(func(executor Executor, cancelCtx *context.Context, span errors.Span, args ...Value) (*Value, *VmInterrupt) {
 			sep := args[0].(ValueString).Inner
@@ -98,7 +105,7 @@ func (self ValueString) Fields() (map[string]*Value, *VmInterrupt) {
 		"substring": NewValueBuiltinFunction(func(executor Executor, cancelCtx *context.Context, span errors.Span, args ...Value) (*Value, *VmInterrupt) {
 			upper := args[0].(ValueInt).Inner
 
-			if upper >= int64(len(self.Inner)) {
+			if upper < 0 || upper >= int64(len(self.Inner)) {
 				return nil, NewVMThrowInterrupt(span, "index out of range")
 			}
 
